@@ -58,6 +58,11 @@ namespace detail
 		GLM_FUNC_QUALIFIER static char const * value() {return "%f";}
 	};
 
+	template<>
+	struct literal<uint32_t, false>
+	{
+		GLM_FUNC_QUALIFIER static char const * value() {return "%u";}
+	};
 #	if GLM_MODEL == GLM_MODEL_32 && GLM_COMPILER && GLM_COMPILER_VC
 	template<>
 	struct literal<uint64_t, false>
